@@ -7,6 +7,15 @@ Theorem C24_altsvc_never_names_both :
   api_advertise_alt_svc field (Some o) (Some i) c = (c, Crash ValueError).
 Proof. exact (fun field o i c => altsvc_never_names_both field o i c). Qed.
 
+(* only servers advertise (fix 4e7b916): on a client-side connection, in EVERY state, the call fails and changes nothing *)
+Theorem C24_client_cannot_advertise :
+  forall field origin sid c, client c = true -> exists r, api_advertise_alt_svc field origin sid c = (c, r) /\ is_ok r = false.
+Proof. exact client_cannot_advertise. Qed.
+(* an advertisement names an origin or a stream (fix c0a4c40: ValueError and nothing changed when it names neither) *)
+Theorem C24_altsvc_names_one :
+  forall field c, api_advertise_alt_svc field None None c = (c, Crash ValueError).
+Proof. exact altsvc_names_one. Qed.
+
 Theorem C24_open_client_cannot_advertise :
   forall field origin sid c,
   c_state c = C_CLIENT_OPEN -> is_ok (snd (api_advertise_alt_svc field origin sid c)) = false.
@@ -67,3 +76,5 @@ Print Assumptions C24_stream_altsvc_with_origin_ignored.
 Print Assumptions C24_stream_altsvc_event_carries_request_authority.
 Print Assumptions C24_altsvc_on_unknown_stream_ignored.
 Print Assumptions C24_altsvc_event_only_before_response_headers.
+Print Assumptions C24_client_cannot_advertise.
+Print Assumptions C24_altsvc_names_one.
